@@ -53,6 +53,14 @@ CHECKS = {
              "(value unit = default unit) the same is proved over ALL IEEE doubles incl. NaN, infinities and -0 (NaN skipped in flat Arrays).",
         note="Real mode: floats as exact reals; FP mode: z3 Float64 comparisons, numpy.isnan shimmed; array lengths 0..3 (quick) / 0..4 (thorough)",
         ref="DESIGN.md §4 C12"),
+    "C05": dict(
+        text="Incompatible operations (18 kinds: + - < > <= GetValue CreateCopy Convert ObtainQuantity construction, on Scalar/Array/FixedArray/"
+             "FractionScalar) over cross-quantity-type unit pairs of the table (legacy spellings of the foreign unit included) and over derived "
+             "operands with different exponent vectors run with SYMBOLIC amounts on a fresh database: every path explored via z3 must end in a "
+             "units/type error (no value sneaks through), the same call repeated is rejected again, the public registry snapshot and the operands "
+             "are unchanged, and a battery of valid operations returns identical terms before and after. Exemptions are asserted to be accepted.",
+        note="cross-type pairs: 420 seeded (quick), all 191x190 type pairs with the first unit of each + 3000 seeded (thorough); Unknown type not asserted",
+        ref="DESIGN.md §4 C05"),
     "C07": dict(
         text="Programs over a fresh POSC database obtain quantities through 24 creation requests (all key forms, legacy, alias, unknown captions, "
              "derived dict/list/operator forms), run one (quick) or two (thorough) operations of a 17-operation alphabet with SYMBOLIC amounts - so "
